@@ -282,6 +282,22 @@ PROPS = {
                   "iterators over the formal parameters yield cells (name_k, default_k) with symbolic content"],
         "assumptions": ["rustc nightly MIR text = the code that is compiled", "mirsym's MIR subset semantics (/verif/mirsym/sym.py)", "z3 5.1 and cvc5 1.0.3 (every query on both)"],
     },
+    "C37": {
+        "engines": ["E2 mirsym+z3/cvc5"],
+        "e2": True,
+        "functions": [
+            ("rsass::Scope::do_use (UseAs::Prefix branch)", "variablescope.rs", r"pub\(crate\) fn do_use"),
+            ("rsass::sass::Expose::allow_fun / allow_var", "sass/item.rs", r"pub fn allow_fun"),
+            ("handle_item @use/@forward initialiser closures (`with` loop)", "output/transform.rs", r"for \(name, value, default\) in with"),
+        ],
+        "bounds": {"quick": "one member of each kind (function, variable, mixin) of an arbitrary module through the prefix branch, any show/hide filter (symbolic); "
+                            "Expose::allow_* for every variant; the `with` loop for 0..2 configured variables with every outcome of lookup, evaluation and define"},
+        "outside": "namespaces (KeepName derives the name with string operations: `@use \"d/_lib.scss\"` gives no namespace `lib` — observed natively, not claimed), private members "
+                   "(`lib.$-p` is reachable — observed, not claimed), `as *` merging, with_forwarded, built-in module protection (C16 kernel), loading the same module twice with different configurations",
+        "stubs": ["BTreeMap iterators over the module's members yield one symbolic member each", "format!(prefix, name) is tracked by the identity of its two arguments",
+                  "BTreeSet::contains, Expose::allow_*, Scope::define*, get_or_none: symbolic answers / every outcome"],
+        "assumptions": ["rustc nightly MIR text = the code that is compiled", "mirsym's MIR subset semantics (/verif/mirsym/sym.py)", "z3 5.1 and cvc5 1.0.3 (every query on both)"],
+    },
     "C29": {
         "engines": ["E1 Kani/CBMC", "E2 mirsym+z3/cvc5"],
         "e2": True,
